@@ -30,15 +30,15 @@ theorem flatten_map_flatMap {α β : Type} (L : List ℕ) (h : ℕ → List α) 
   | cons a L ih => simp [List.flatMap_append, ih]
 
 theorem flatten_flatMap_grid2 {α β : Type} (n m : ℕ) (f : ℕ → ℕ → List α) (g : α → List β) :
-    ((grid2 n m f).flatten).flatMap g = (grid2 n m fun i j => (f i j).flatMap g).flatten := by
+    ((meshGrid2 n m f).flatten).flatMap g = (meshGrid2 n m fun i j => (f i j).flatMap g).flatten := by
   induction n with
-  | zero => simp [grid2]
+  | zero => simp [meshGrid2]
   | succ n ih =>
     rw [grid2_succ, grid2_succ, List.flatten_append, List.flatMap_append, ih, List.flatten_append,
       flatten_map_flatMap]
 
 theorem meshDirEdges_eq (nu nv : ℕ) :
-    meshDirEdges nu nv = (grid2 (nu - 1) (nv - 1) (cellDirEdges nv)).flatten := by
+    meshDirEdges nu nv = (meshGrid2 (nu - 1) (nv - 1) (cellDirEdges nv)).flatten := by
   unfold meshDirEdges meshTriangles
   rw [flatten_flatMap_grid2]; rfl
 
@@ -71,9 +71,9 @@ theorem nodup_flatten_map_range {α : Type} (m : ℕ) (h : ℕ → List α) (hn 
 theorem nodup_flatten_grid2 {α : Type} (n m : ℕ) (f : ℕ → ℕ → List α)
     (hn : ∀ i j, i < n → j < m → (f i j).Nodup)
     (hd : ∀ i j i' j' x, i < n → j < m → i' < n → j' < m → x ∈ f i j → x ∈ f i' j' → i = i' ∧ j = j') :
-    ((grid2 n m f).flatten).Nodup := by
+    ((meshGrid2 n m f).flatten).Nodup := by
   induction n with
-  | zero => simp [grid2]
+  | zero => simp [meshGrid2]
   | succ n ih =>
     rw [grid2_succ, List.flatten_append, List.nodup_append]
     refine ⟨ih (fun i j hi hj => hn i j (by omega) hj)
